@@ -418,14 +418,95 @@ def rule_r5(F, rep):
                                   % (string, ntn, sorted(map(str, oks)), sorted(map(str, exp))), fn.loc)
 
 
+def rule_r7(F, rep, rid="C12.R7"):
+    """The CLI evaluates in two runs: the root value is forced deeply with the import callbacks available, the text is built
+    afterwards without them.  That is only sound when the deep pass skips nothing manifestation will read."""
+    from . import kwalk, chartab
+    from .facts import callee_name
+    R = rep.rule(rid, "the deep-forcing pass (State::DeepValue) descends into every array and object: ValueData::might_need_deep "
+                 "answers true for Array and Object whatever else is known about the value, and a thunk that is not Done is "
+                 "always forced — otherwise a pending field is first evaluated while the text is built, where imports have "
+                 "no callbacks (panic) and failures are reported after output has started")
+    VD = "rsjsonnet_lang::program::data::ValueData"
+    TS = "rsjsonnet_lang::program::data::ThunkState"
+    fn = F.fn("<%s>::might_need_deep" % VD)
+    rep.fn(fn)
+    variants = [v["n"] for v in F.adt(VD)["variants"]]
+    for want in ("Array", "Object"):
+        if want not in variants:
+            raise facts.AnchorMissing("ValueData::%s" % want)
+    n = 0
+    for v in variants:
+        w = kwalk.Walker(F, fn.body, want_ret=True,
+                         on_term=lambda w, bb, t, env: ("call", callee_name(t) or "?") if t["k"] == "call" else None)
+        outs = w.run(0, {"1": ("ref", "self"), "self": ("var", VD, v)})
+        rep.states += w.states_explored
+        rets = set()
+        for o in outs:
+            if o[0] != "return":
+                rets.add("diverge")
+                continue
+            r = chartab.ret_bool(o)
+            calls = sorted(m[1] for m in o[1] if isinstance(m, tuple) and m and m[0] == "call")
+            rets.add((r, tuple(calls)))
+        n += 1
+        if v in ("Array", "Object"):
+            bad = [x for x in rets if x == "diverge" or (x[0] != 1 and not any(c.endswith("::is_empty") or c.endswith("::len") for c in x[1]))]
+            ok = not bad
+            rep.ob(R, "might_need_deep|%s" % v, ok, {"variant": v, "returns": sorted(map(str, rets))})
+            if not ok:
+                rep.violation(R, "%s|%s|may-skip" % (fn.q, v), "ValueData::might_need_deep can answer false for an %s (%s): the "
+                              "deep pass then leaves its pending items to be evaluated during manifestation"
+                              % (v, sorted(map(str, bad))), fn.loc)
+        else:
+            rep.ob(R, "might_need_deep|%s" % v, True, None)
+    # the thunk-level wrapper inside Evaluator::run
+    wr = [f for f in F.fn_list if f.q.endswith("::run::might_need_deep") and "Evaluator" in f.q]
+    if len(wr) != 1:
+        raise facts.AnchorMissing("Evaluator::run::might_need_deep (found %d)" % len(wr))
+    wr = wr[0]
+    rep.fn(wr)
+    for v in [x["n"] for x in F.adt(TS)["variants"]]:
+        # `thunk.state()` returns a guard / reference to the state: model its result as a reference to a tracked place
+        def cres(w, bb, t, env, args, v=v):
+            nm = callee_name(t) or ""
+            if nm.endswith("::state"):
+                env["st"] = ("var", TS, v)
+                return ("ref", "st")
+            if nm.endswith("::deref") or nm.endswith("Deref::deref"):
+                a = args[0] if args else None
+                if isinstance(a, tuple) and a and a[0] == "ref" and isinstance(env.get(a[1]), tuple) and env[a[1]][0] == "ref":
+                    return env[a[1]]        # &Ref<T> -> &T
+                return a
+            if nm.endswith("::might_need_deep"):
+                return None
+            return None
+        w = kwalk.Walker(F, wr.body, want_ret=True, call_result=cres)
+        outs = w.run(0, {})
+        rep.states += w.states_explored
+        rets = {chartab.ret_bool(o) if o[0] == "return" else "diverge" for o in outs}
+        n += 1
+        if v == "Done":
+            rep.ob(R, "thunk|Done", True, {"returns": sorted(map(str, rets))})
+            continue
+        ok = rets == {1}
+        rep.ob(R, "thunk|%s" % v, ok, {"state": v, "returns": sorted(map(str, rets))})
+        if not ok:
+            rep.violation(R, "%s|%s|may-skip" % (wr.q, v), "a thunk in state %s can be skipped by the deep pass (wrapper returns %s)"
+                          % (v, sorted(map(str, rets))), wr.loc)
+    rep.floor(R, n, 9, "value kinds and thunk states")
+
+
 def run(F, rep, tier):
     rule_r1_r3(F, rep)
     rule_r2(F, rep)
     rule_r2b(F, rep)
     rule_r2c(F, rep)
     rule_r6(F, rep)
+    rule_r7(F, rep)
     from . import visibility
     visibility.rule(F, rep, "C07.R4")
+    visibility.rule_partition(F, rep, "C07.R6")
     rule_r4(F, rep)
     from . import c01
     c01.rule_r2(F, rep)
